@@ -6,7 +6,7 @@ from __future__ import annotations
 
 import importlib
 
-MODULES = ["pymath", "misc", "geom", "nptable"]
+MODULES = ["pymath", "misc", "geom", "nptable", "quat"]
 
 
 def install(it):
